@@ -12,7 +12,8 @@
 (***************************************************************************)
 EXTENDS Integers, Sequences, FiniteSets, TLC, Json
 
-CONSTANTS MaxLen, W, Wrap, WithHist
+CONSTANTS MaxLen, W, Wrap, WithHist,
+          OffsetIntoStored   \* TRUE: the negative control for lists with holes (see FPage)
 
 VARIABLES n, idx, size
 vars == <<n, idx, size>>
@@ -40,6 +41,22 @@ AscPagesPartition  == size > 0 => Concat(Asc, n, size, 0) = [k \in 1..n |-> k]
 DescPagesPartition == size > 0 => Concat(Desc, n, size, 0) = [k \in 1..n |-> n - k + 1]
 PageBounded == Len(Asc(n, idx, size)) <= size /\ Len(Desc(n, idx, size)) <= size /\ Len(ByHeight(n, idx, size)) <= size
 BeyondEndEmpty == (idx * size >= n) => Asc(n, idx, size) = <<>>
+
+\* Lists with holes: the contract stores entries it does not list any more (a revoked sentinel or pillar, a cancelled entry).
+\* H is the set of stored positions that are not listed; the page is a page of the LISTED sequence.  The negative control
+\* computes the page range on the listed length but cuts it out of the stored list (one element comes twice, one never).
+Listed(len, H) == SelectSeq([k \in 1..len |-> k], LAMBDA x : x \notin H)
+FPage(len, H, i, s) ==
+  LET L == Listed(len, H)
+      P == Asc(Len(L), i, s)
+  IN IF OffsetIntoStored
+     THEN LET start == Mul(i, s)
+              rest  == SelectSeq([k \in 1..len |-> k], LAMBDA x : x > start /\ x \notin H)
+          IN SubSeq(rest, 1, Min(Len(P), Len(rest)))
+     ELSE [k \in 1..Len(P) |-> L[P[k]]]
+RECURSIVE FConcat(_, _, _, _)
+FConcat(len, H, s, i) == IF i * s >= len + s THEN <<>> ELSE FPage(len, H, i, s) \o FConcat(len, H, s, i + 1)
+FilteredPagesPartition == (size > 0 /\ idx = 0) => \A H \in SUBSET (1..n) : FConcat(n, H, size, 0) = Listed(n, H)
 
 Emit == IF WithHist THEN PrintT(<<"B", ToJson([n |-> n, idx |-> idx, size |-> size, asc |-> Asc(n, idx, size), desc |-> Desc(n, idx, size), byh |-> ByHeight(n, idx, size)])>>) ELSE TRUE
 =============================================================================
